@@ -5,6 +5,7 @@
 //  * Status<T>::GetErrorMessage for every ErrorStatus
 #include <array>
 #include <deque>
+#include <functional>
 #include <limits>
 #include <map>
 #include <set>
@@ -339,6 +340,44 @@ static void bfs(const char* tag, const std::vector<Op>& ops, RealF real, ModelF 
   }
   R.counters["states"] += seen.size();
   R.distinct_direct += seen.size();
+  // second pass without state merging (implementation-only state such as a stale error code or a value left in dead
+  // storage is invisible to the model state): every operation sequence of length <= 3 from the initial state
+  {
+    const size_t depth = A.thorough() ? 4 : 3;
+    std::vector<size_t> seq;
+    uint64_t nseq = 0;
+    std::function<void()> rec = [&]() {
+      if (!seq.empty()) {
+        life().reset();
+        Model m;
+        std::string why;
+        {
+          World w;
+          for (size_t k = 0; k + 1 < seq.size(); k++) { real(w, ops[seq[k]]); model(m, ops[seq[k]]); }
+          if (seq.size() > 1) cmp(w, m);
+          real(w, ops[seq.back()]);
+          model(m, ops[seq.back()]);
+          why = cmp(w, m);
+        }
+        if (why.empty() && (!life().live.empty() || life().ctors != life().dtors || !life().violation.empty()))
+          why = life().violation.empty() ? std::to_string(life().live.size()) + " values still alive after every object was destroyed" : life().violation;
+        nseq++;
+        if (!why.empty()) {
+          std::string hs;
+          for (size_t k = 0; k < seq.size(); k++) hs += name(ops[seq[k]]) + ";";
+          std::string cid = std::string("C13|") + tag + "|seq|" + hs;
+          if (R.want(cid)) R.viol(std::string("C13|") + tag + "|sequence|" + opkinds[ops[seq.back()].code], cid, why, "{\"sequence\":" + jstr(hs) + "}");
+          return;
+        }
+      }
+      if (seq.size() == depth) return;
+      for (size_t i = 0; i < ops.size(); i++) { seq.push_back(i); rec(); seq.pop_back(); }
+    };
+    if (R.only.empty() || R.only.find("|seq|") != std::string::npos) rec();
+    R.counters["sequences_without_merging"] += nseq;
+    R.counters["transitions"] += nseq;
+    R.counters["evaluations"] += nseq;
+  }
   int n = 0;
   for (auto& kv : seen) {
     if (kv.second.size() < 3) continue;
